@@ -80,6 +80,7 @@ func runC03(c *core.Ctx) {
 
 	// (2) justified suspensions in generated C.
 	nShortRead, nShortWrite := 0, 0
+	nAdvTotal := 0
 	for _, pkg := range cb.StdPackages() {
 		src, err := os.ReadFile(cb.PkgC[pkg])
 		if err != nil {
@@ -88,6 +89,8 @@ func runC03(c *core.Ctx) {
 		cf := core.CParseFile(cb.PkgC[pkg], string(src))
 		var bad []string
 		nr, nw := 0, 0
+		nAdv := 0
+		var badAdv []string
 		for _, fn := range cf.Funcs {
 			if !strings.HasPrefix(fn.Name, "wuffs_"+pkg+"__") {
 				continue
@@ -141,12 +144,38 @@ func runC03(c *core.Ctx) {
 							}
 						}
 					}
+					// J.advance: a guard that only says "the reader is not empty" justifies
+					// consuming exactly one byte. `if (iop == io2) { short read; suspend }`
+					// followed by `iop += K` for K > 1 walks past io2 when 1..K-1 bytes are
+					// buffered: every later length test then passes and the decoder reads
+					// beyond the supplied bytes (seeded change C03-5).
+					if s.Kind == "if" && len(s.Body) >= 2 && s.Else == nil && i+1 < len(list) {
+						last := s.Body[len(s.Body)-1]
+						if last.Kind == "goto" && last.Label == "suspend" && core.CText(s.Body[len(s.Body)-2].Toks) == "status = wuffs_base__make_status ( wuffs_base__suspension__short_read )" {
+							if m := reEmpty.FindStringSubmatch(core.CText(s.Toks)); m != nil && m[1] == m[2] {
+								nx := list[i+1]
+								if nx.Kind == "expr" && len(nx.Toks) >= 3 && nx.Toks[0].Text == "iop_"+m[1] && nx.Toks[1].Text == "+=" {
+									nAdv++
+									if !(len(nx.Toks) == 3 && (nx.Toks[2].Text == "1" || nx.Toks[2].Text == "1u")) {
+										badAdv = append(badAdv, fmt.Sprintf("%s line %d: `%s` after a guard that only establishes that the reader is not empty", fn.Name, nx.Line, nx.Text()))
+									}
+								}
+								if nx.Kind == "expr" && len(nx.Toks) == 2 && nx.Toks[0].Text == "iop_"+m[1] && nx.Toks[1].Text == "++" {
+									nAdv++
+								}
+							}
+						}
+					}
 					walk(s.Body, s)
 					walk(s.Else, s)
 				}
 			}
 			walk(stmts, nil)
 		}
+		if nAdv > 0 || len(badAdv) > 0 {
+			c.Check(len(badAdv) == 0, "J.advance", "generated C for std/"+pkg, "after a guard that only establishes that the reader is not empty (`iop == io2` ⇒ short read) the generated code consumes exactly one byte", nAdv, strings.Join(badAdv, "\n"))
+		}
+		nAdvTotal += nAdv
 		nShortRead += nr
 		nShortWrite += nw
 		if nr+nw > 0 || len(bad) > 0 {
@@ -156,6 +185,7 @@ func runC03(c *core.Ctx) {
 	c.Analysed("builtin_short_read_suspensions", nShortRead)
 	c.Analysed("builtin_short_write_suspensions", nShortWrite)
 	c.Floor("J", "built-in short-read/short-write suspension sites in generated std C", nShortRead+nShortWrite, 380)
+	c.Floor("J.advance", "single-byte advances behind a reader-not-empty guard", nAdvTotal, 2)
 
 	// (4) iterate loops: the generated round headers keep every chunk inside the
 	// slice (c03_iterate.go), on std and the lowering corpus.
